@@ -99,16 +99,19 @@ def check_selectors(prog, rep, qual='svd.matrix_svd', a='m', b='n',
             t = node.test
         if t is None:
             continue
-        v = _cmp_vector(t, a, b)
+        # a predicate kept in a boolean temporary (is_wide = m <= n) is the
+        # same selector wherever the temporary is tested
+        v = _cmp_vector(roles.inline(fn.node, t), a, b)
         if v is not None:
             vecs.append((v, t))
-    if len(vecs) < 3:
-        rep.error('%s: expected three %s-vs-%s selectors, found %d'
-                  % (qual, a, b, len(vecs)))
+    if len(vecs) < 2:
+        rep.error('%s: expected the %s-vs-%s selectors (Gram side, factor '
+                  'formulas), found %d' % (qual, a, b, len(vecs)))
         return
     ref = vecs[0][0]
     for v, t in vecs:
-        ok = v == ref
+        # the same predicate or its negation: one partition of the orderings
+        ok = v == ref or v == tuple(not x for x in ref)
         rep.add(rule, qual, 'selector %s' % paths.src(mod, t) +
                 ' (#%d)' % (vecs.index((v, t)) + 1),
                 'ok' if ok else 'violation',
@@ -578,3 +581,129 @@ def check_basis_values(prog, rep, qual, size_param, arg_param, first=None,
                 '' if bad is None else 'entry %d of the basis is %r, expected '
                 'the Chebyshev polynomial %r' % bad,
                 line=fn.node.lineno, file=fn.module.path)
+
+
+# ---------------------------------------------------------------------------
+# Rank selection as a VALUE: the size polynomial of the truncated bond that the
+# abstract interpreter computed (whatever statements, helpers or temporaries
+# produced it) is compared with  max(1, min(cap, len - dropped))  on a grid of
+# integer valuations of its leaves.  ``dropped`` is the data dependent count
+# of the prefix mask  cumsum(reversed squares) <= e**2.
+def check_rank_value(an, rep, qual, rule='F-rank', floor_rule='S-floor',
+                     cap_rule='P-cap', variant_pred=None):
+    from . import specs
+    from . import poly as _poly
+    from .poly import peval, leaf_atoms
+    prog = an.prog
+    fn = prog.func(qual)
+    mod = fn.module
+    n_done = 0
+    for vi, v in enumerate(specs.variants(qual)):
+        if variant_pred is not None and not variant_pred(v):
+            continue
+        r = an.run(qual, vi, 2)
+        cap_sym = None
+        if isinstance(v.get('r'), str) and v['r'].startswith('int:'):
+            cap_sym = v['r'].split(':', 1)[1]
+        for j, rv in enumerate(r.returns):
+            if not (rv.k == 'tuple' and rv.items and len(rv.items) == 2 and
+                    rv.items[0].k == 'arr' and rv.items[0].dims is not None
+                    and len(rv.items[0].dims) == 2):
+                continue
+            P = rv.items[0].dims[1]
+            what = 'truncated bond of return path %d (%s)' % (j, r.tag())
+            if P is None:
+                rep.unknown(rule, qual, what, 'bond not typed')
+                continue
+            leaves = leaf_atoms(P)
+            counts = [a for a in leaves if isinstance(a, tuple) and
+                      len(a) == 7 and a[0] == 'count']
+            others = [a for a in leaves if a not in counts]
+            if len(counts) != 1 or any(not isinstance(a, str)
+                                       for a in others):
+                rep.unknown(rule, qual, what, 'the bond %r is not a function '
+                            'of one dropped-count and free sizes' % (P,))
+                continue
+            D = counts[0]
+            Lp = D[4]
+            syms = sorted(set(others) | {a for a in leaf_atoms(Lp)
+                                         if isinstance(a, str)})
+            if any(not isinstance(a, str) for a in leaf_atoms(Lp)):
+                rep.unknown(rule, qual, what, 'length %r not free' % (Lp,))
+                continue
+            bad = bad_floor = bad_cap = None
+            n = 0
+            undecided = False
+            grids = [(1, 2, 3, 5) if s == cap_sym else (1, 2, 3)
+                     for s in syms]
+            for vals in itertools.product(*grids):
+                val = dict(zip(syms, vals))
+                Lv = peval(Lp, val)
+                if Lv is None:
+                    undecided = True
+                    break
+                Lv = int(Lv)
+                cap = val[cap_sym] if cap_sym is not None else None
+                for dv in range(0, Lv + 1):
+                    val[D] = dv
+                    got = peval(P, val)
+                    if got is None:
+                        undecided = True
+                        break
+                    n += 1
+                    # default cap 1e12: never binding on the grid
+                    want = max(1, Lv - dv) if cap is None else \
+                        max(1, min(cap, Lv - dv))
+                    if got != want and bad is None:
+                        bad = (dict(val), int(got), want)
+                    if got < 1 and bad_floor is None:
+                        bad_floor = (dict(val), int(got))
+                    if cap is not None and got > max(cap, 1) and \
+                            bad_cap is None:
+                        bad_cap = (dict(val), int(got), cap)
+                if undecided:
+                    break
+            if undecided:
+                rep.unknown(rule, qual, what, 'the bond %r is not evaluable '
+                            '(path alternatives)' % (P,))
+                continue
+            n_done += 1
+
+            def show(val):
+                return ', '.join('%s=%s' % (
+                    'dropped' if k == D else k, x) for k, x in
+                    sorted(val.items(), key=lambda kv: repr(kv[0])))
+            rep.add(rule, qual, what + ': rank = max(1, min(cap, len - '
+                    'dropped))', 'ok' if bad is None else 'violation',
+                    'evaluated on %d valuations' % n if bad is None else
+                    'for %s the bond is %d, the tail-energy rule requires '
+                    'max(1, min(r, len - dropped)) = %d' % (
+                        show(bad[0]), bad[1], bad[2]),
+                    line=fn.node.lineno, file=mod.path)
+            rep.add(floor_rule, qual, what + ': rank >= 1',
+                    'ok' if bad_floor is None else 'violation',
+                    '' if bad_floor is None else 'for %s the bond is %d: the '
+                    'rank floor max(1, .) is gone, a bond of size 0 becomes '
+                    'possible for the zero matrix' % (show(bad_floor[0]),
+                                                      bad_floor[1]),
+                    line=fn.node.lineno, file=mod.path)
+            if cap_sym is not None:
+                rep.add(cap_rule, qual, what + ': rank <= cap',
+                        'ok' if bad_cap is None else 'violation',
+                        '' if bad_cap is None else 'for %s the bond is %d, '
+                        'above the requested cap %d' % (
+                            show(bad_cap[0]), bad_cap[1], bad_cap[2]),
+                        line=fn.node.lineno, file=mod.path)
+            info = {'strict': D[5], 'rev': D[6], 'line': D[2]}
+            good = (not info.get('strict')) and info.get('rev')
+            rep.add(rule + '-tail', qual, what + ': dropped = longest tail '
+                    'with cumsum(tail energies) <= e**2',
+                    'ok' if good else 'violation',
+                    '' if good else 'the droppable tail is no longer the '
+                    'longest tail whose cumulative energy is <= e**2 (%s)' % (
+                        'strict comparison' if info.get('strict') else
+                        'the running sums do not start from the small end'),
+                    line=info.get('line') or fn.node.lineno,
+                    file=prog.modules[D[1].split('.')[0]].path
+                    if D[1].split('.')[0] in prog.modules else mod.path)
+    return n_done
